@@ -39,8 +39,8 @@ DD(d) == IF d = 1 THEN <<2, 0>> ELSE <<0, -2>>
 LX(d) == IF d = 1 THEN <<-4, -Inf>> ELSE <<-Inf, -6>>
 UX(d) == IF d = 1 THEN <<4, 6>> ELSE <<Inf, 6>>
 
-RowLo(k) == CASE k = "eq0" -> 0 [] k = "eq" -> 3 [] k = "lower" -> -1 [] k = "upper" -> -Inf [] k = "ranged" -> -2 [] OTHER -> -Inf
-RowHi(k) == CASE k = "eq0" -> 0 [] k = "eq" -> 3 [] k = "lower" -> Inf [] k = "upper" -> 2 [] k = "ranged" -> 5 [] OTHER -> Inf
+RowLo(k) == CASE k = "eq0" -> 0 [] k = "eq" -> 3 [] k = "lower" -> -1 [] k = "upper" -> -Inf [] k = "ranged" -> -2 [] k = "narrow" -> 1048576 [] OTHER -> -Inf
+RowHi(k) == CASE k = "eq0" -> 0 [] k = "eq" -> 3 [] k = "lower" -> Inf [] k = "upper" -> 2 [] k = "ranged" -> 5 [] k = "narrow" -> 1048577 [] OTHER -> Inf
 IsSlack(k) == RowLo(k) # RowHi(k)
 
 (* ---- the user's functions (true integers) ---- *)
